@@ -30,6 +30,7 @@ def run(ctx, rep):
     e8_formulas.check_grlex(facts, rep)
     rep.rule('E24', e24_lex.__doc__.strip().split('\n')[0])
     e24_lex.run(facts, rep)
+    e24_lex.check_index_bounds(facts, rep)
     e16_polyshort.check_sub_negates(facts, rep)
     rep.rule('E16', e16_polyshort.__doc__.strip().split('\n')[0])
     e16_polyshort.run(facts, rep)
